@@ -235,15 +235,15 @@ Definition render_smap (d : nat) (l : list (str * str)) : str :=
             end) l ++ indent d ++ ["}"%char]
   end.
 
-Fixpoint render (d : nat) (r : jrec) : str :=
+Fixpoint jrender (d : nat) (r : jrec) : str :=
   match r with
   | JRec id proc cmd params tags start finish neg exec outs up =>
     let line (k : string) (v : str) := indent (S d) ++ jstr (s2l k) ++ s2l ": " ++ v ++ ","%char :: [nlc] in
     let fix ups (l : list (str * jrec)) : str :=
         match l with
         | [] => []
-        | [(k, u)] => indent (S (S d)) ++ jstr k ++ s2l ": " ++ render (S (S d)) u ++ [nlc]
-        | (k, u) :: r => indent (S (S d)) ++ jstr k ++ s2l ": " ++ render (S (S d)) u ++ ","%char :: nlc :: ups r
+        | [(k, u)] => indent (S (S d)) ++ jstr k ++ s2l ": " ++ jrender (S (S d)) u ++ [nlc]
+        | (k, u) :: r => indent (S (S d)) ++ jstr k ++ s2l ": " ++ jrender (S (S d)) u ++ ","%char :: nlc :: ups r
         end in
     "{"%char :: nlc ::
     line "ID"%string (jstr id) ++ line "ProcessName"%string (jstr proc) ++ line "Command"%string (jstr cmd) ++
